@@ -13,6 +13,7 @@ pub struct C01;
 
 pub fn gen(t: &mut Tape, tier: Tier) -> (DiffCase, Cfg) {
     let mut o = GenOpts::default_full();
+    o.allow_conflict = true;
     if tier == Tier::Thorough {
         o.max_items = 8;
         o.max_hunks = 4;
@@ -72,6 +73,25 @@ pub fn evaluate(case: &DiffCase, cfg: &Cfg, out: &[u8], ctx: &mut Ctx) -> Result
     // expected content lines
     let mut exp: Vec<Expect> = Vec::new();
     for l in &lines {
+        // a merge-conflict region is shown as two comparisons against the common ancestor:
+        // base lines (as removed) then our lines (as added); base lines then their lines
+        if let Role::Conflict { sec, hunk, part: 0, .. } = &l.role {
+            if l.text.starts_with("++>>>>>>>") {
+                let c = secs[*sec].hunks[*hunk].conflict.as_ref().expect("conflict");
+                for side in [&c.ours, &c.theirs] {
+                    for (kind, ls) in [(RowKind::Minus, &c.base), (RowKind::Plus, side)] {
+                        for (i, hl) in ls.iter().enumerate() {
+                            // (inside a conflict region the prefix columns are not shown; with
+                            // keep-plus-minus-markers a single -/+ says which side of the comparison)
+                            let body = rows::expand_tabs(&hl.text, rows::tab_width(cfg));
+                            let text = if cfg.has("keep-plus-minus-markers") { format!("{}{}", if kind == RowKind::Minus { "-" } else { "+" }, body) } else { body };
+                            exp.push(Expect { sec: *sec, hunk: *hunk, idx: 1000 + i, kind, text, raw_len: hl.prefix.len() + hl.text.len() });
+                        }
+                    }
+                }
+            }
+            continue;
+        }
         if let Role::Hunk { sec, hunk, idx, kind } = &l.role {
             let s = secs[*sec];
             if s.kind == SK::SubmoduleShort {
